@@ -285,7 +285,24 @@ fn run_one_inner(v: &Value, out: &mut Vec<String>) {
                 .collect()
         })
         .unwrap_or_default();
+    // "parent_ids": the parent runs with real ids that differ from its effective ones (a set-user-ID program, a daemon
+    // that kept its saved id): [real, effective, saved] for "uid" / "gid"
+    let ids = |k: &str| -> Option<(u32, u32, u32)> {
+        v["parent_ids"][k].as_array().map(|l| (l[0].as_u64().unwrap() as u32, l[1].as_u64().unwrap() as u32, l[2].as_u64().unwrap() as u32))
+    };
+    if let Some((r, e, s)) = ids("gid") {
+        assert_eq!(unsafe { libc::setresgid(r, e, s) }, 0);
+    }
+    if let Some((r, e, s)) = ids("uid") {
+        assert_eq!(unsafe { libc::setresuid(r, e, s) }, 0);
+    }
     run_one_body(v, out);
+    if ids("uid").is_some() {
+        assert_eq!(unsafe { libc::setresuid(0, 0, 0) }, 0);
+    }
+    if ids("gid").is_some() {
+        assert_eq!(unsafe { libc::setresgid(0, 0, 0) }, 0);
+    }
     for (fd, keep) in closed {
         unsafe {
             simk::raw::dup2(keep, fd);
